@@ -147,6 +147,45 @@ def seq_width(fb, seq):
     return tot
 
 
+def quoted_name_rule(ck, fb):
+    """the ASCII reader's view of a quoted property name: from the first to the last quote mark"""
+    from .canon import Canon
+    ck.rule("C06.quoted", "FileManager::extractQuotedText takes the text between the FIRST quote mark (find / find_first_of) and the LAST one (rfind / find_last_of): the writer puts one quote mark on either side of the unescaped name, so a search that skips quote marks from the end (find_last_not_of) eats the name's own trailing quote marks (F45)")
+    fs = [f for f in fb.fns.values() if f.has_cfg and f.pq.endswith("FileManager::extractQuotedText")]
+    if len(fs) != 1:
+        raise AnalysisBroken("anchor vanished: FileManager::extractQuotedText (%d)" % len(fs))
+    f = fs[0]
+    names = [x.get("pn", "").split("::")[-1] for b, i, x in f.nodes(("call",)) if b in f.reach()]
+    first = [n for n in names if n in ("find", "find_first_of")]
+    last = [n for n in names if n in ("rfind", "find_last_of")]
+    bad = [n for n in names if n in ("find_last_not_of", "find_first_not_of")]
+    if bad:
+        ck.violate("C06.quoted", f.where, "extractQuotedText locates the closing quote mark with rfind/find_last_of (found %s, which skips every trailing quote mark of the name)" % bad, "C06.quoted:not_of")
+    elif first and last:
+        ck.ok("C06.quoted", f.where, "extractQuotedText cuts between %s and %s" % (first[0], last[0]))
+    else:
+        ck.cannot_judge("C06.quoted %s: the quote marks are located in another way (%s) - not judged" % (f.where, sorted(set(names))[:6]))
+
+
+def write_buffer_rule(ck, fb):
+    """WriteBuffer hands out data_.data() + pos_, never &data_[pos_]"""
+    from .canon import Canon
+    ck.rule("M.index", "WriteBuffer::write and bytes_to_write form their destination by pointer arithmetic on data_.data() - valid up to one past the end - and never as &data_[pos_]: after need(0) on a full buffer pos_ equals data_.size() and operator[] is called out of range (undefined behaviour, abort with _GLIBCXX_ASSERTIONS; reached for every empty string, F46)")
+    n = 0
+    for f in fb.fns.values():
+        if not (f.has_cfg and f.cls and f.cls.endswith("IO::detail::WriteBuffer") and f.name in ("write", "bytes_to_write")) or "uint8_t" not in (f.d.get("rt", "") + " ".join(p_["t"] for p_ in f.d.get("params", []))) and f.name == "write" and False:
+            continue
+        cn = Canon(f)
+        txt = " ".join(cn.s(x) for b, i, x in f.tops() if b in f.reach())
+        addr = [x for b, i, x in f.nodes(("un",)) if x.get("op") == "&" and b in f.reach() and "data_[" in cn.s(x)]
+        uses_data = "data_.data()" in txt
+        if not uses_data and not addr:
+            continue  # overloads that forward to the pointer version
+        n += 1
+        (ck.ok if not addr else lambda r_, w_, t_: ck.violate(r_, w_, t_, "M.index:%s" % f.name))("M.index", f.where, "WriteBuffer::%s computes its destination as data_.data() + pos_ (%s)" % (f.name, "pointer arithmetic" if not addr else "found " + cn.s(addr[0])[:40]))
+    ck.floor("write_buffer_destinations", n, 2)
+
+
 def run(ck, fb, fbd):
     codec_symmetry(ck, fb)
     ksy_agreement(ck, fb)
@@ -159,6 +198,8 @@ def run(ck, fb, fbd):
     topology_detection(ck, fb)
     from . import readers
     buffer_rule(ck, fb)
+    quoted_name_rule(ck, fb)
+    write_buffer_rule(ck, fb)
     bool_codec_rule(ck, fb)
     empty_span_rule(ck, fb)
     readers.edge_dup_rule(ck, fb)
